@@ -152,6 +152,14 @@ def run(run, rng):
         case = trained.gen_train_case(rng, max_len_choices=(21, 21, 8))
         if i % 12 == 5:
             case['linked'] = ['first', 'retrain'][(i // 12) % 2]
+        if i % 9 == 4 and not case.get('prefixcount'):
+            # lines the trainer has to skip, written as $HEX[..]: what they decode to holds a TAB / line separator (a password no line-oriented file can hold).
+            # They are frequent, so that a terminal made from one would not be the last line of its file
+            for junk in rng.sample(['\t', 'ab\tcd', '\x0b', 'x\u2028y', '\x1c', 'pw\n', '\r'], 2):
+                try:
+                    case['items'].append(['$HEX[' + junk.encode(case['encoding']).hex() + ']', rng.choice([3, 4, 6])])
+                except UnicodeEncodeError:
+                    pass
         run.guard(case, check_case, seconds=240)
 
 def replay(run, case):
